@@ -169,3 +169,110 @@ def gen_wrap_irs(r, lengths=None, per_length=1):
             ret = OrderedDict((("return_type", OrderedDict((("doc", prose_of_length(r, r.choice(lengths))), ("typ", r.choice(["int", "List[int]"]))))),))
         out.append({"name": "F", "doc": r.choice(["", "Summary line."]), "params": params, "returns": ret, "type": r.choice(["static", "self"])})
     return out
+
+
+# ----------------------------------------------------------------------------------------------
+# quote stream: string defaults with quote characters in every position
+# ----------------------------------------------------------------------------------------------
+QUOTE_STRS = {
+    "mixed": ["'{name}' is not \"{other}\"", "\"{a}\" or '{b}'", "'x\"", "\"x'", "'ab\"", "\"a b'"],
+    "begin-only": ["'abc", "\"abc", "'a b c"],
+    "end-only": ["abc'", "abc\"", "a b c\""],
+    "inside": ["a'b", "a\"b", "it's", "say \"hi\" now", "it's \"x\" ok"],
+    "same-wrapped": ["'x'", "\"x\"", "'a b'", "\"a'b\"", "''", "\"\""],
+    "lone": ["'", "\""],
+    "escaped": ["a\\'b", "a\\\"b", "\\'x\\'", "back\\\\slash"],
+}
+QUOTE_TYPES = ["str", "str", "Optional[str]", "Union[str, int]", "Union[int, str]", "Optional[Union[str, float]]"]
+
+
+def quote_shape(s):
+    """where the quote characters of a string default sit"""
+    if not isinstance(s, str) or not any(c in s for c in "'\""):
+        return "none"
+    if "\\" in s:
+        return "escaped"
+    if len(s) == 1:
+        return "lone"
+    a, b = s[0] in "'\"", s[-1] in "'\""
+    if a and b:
+        return "same-wrapped" if s[0] == s[-1] else "mixed"
+    if a:
+        return "begin-only"
+    if b:
+        return "end-only"
+    return "inside"
+
+
+def gen_quote_irs(r, n):
+    """1-4 parameters, str-mentioning types, defaults drawn from QUOTE_STRS (every shape about equally often), some plain neighbours"""
+    shapes = sorted(QUOTE_STRS)
+    out = []
+    for k in range(n):
+        m = r.randint(1, 4)
+        names = r.sample(NAMES, m)
+        params = OrderedDict()
+        first_default = r.randint(0, 1) if m > 1 else 0
+        for i, nm in enumerate(names):
+            p = OrderedDict((("doc", r.choice(MORE_DOCS)), ("typ", r.choice(QUOTE_TYPES))))
+            if i >= first_default:
+                p["default"] = r.choice(QUOTE_STRS[shapes[(k + i) % len(shapes)]]) if r.random() < 0.8 else r.choice(["foo", "", "a_b"])
+            params[nm] = p
+        ret = None
+        if r.random() < 0.25:
+            ret = OrderedDict((("return_type", OrderedDict((("doc", r.choice(MORE_DOCS)), ("typ", "Optional[str]")))),))
+        out.append({"name": "F", "doc": r.choice(["", "Summary line."]), "params": params, "returns": ret, "type": r.choice(["static", "static", "self"])})
+    return out
+
+
+# ----------------------------------------------------------------------------------------------
+# keyword stream: descriptions that mention, as prose, the section keywords of the docstring styles
+# ----------------------------------------------------------------------------------------------
+KEYWORD_DOCS = {
+    "Args:": ["Same as Args: of the caller", "Kept as is, see Args: above"],
+    "Returns:": ["Like Returns: of the caller", "Whatever it Returns: is kept"],
+    "Raises:": ["Kept as is, e.g. Raises: nothing", "Never Raises: anything"],
+    "Kwargs:": ["Passed as Kwargs: to the caller"],
+    "Parameters": ["Same as Parameters of the caller", "Kept with the other Parameters"],
+    "Returns+dashes": ["Kept as is\nReturns\n-------\nnothing new", "Same as the caller\nParameters\n----------\nall of them"],
+    ":param": ["The :param of the caller, kept", "Same as :param x: of the caller"],
+    ":return:": ["Same as :return: of the caller", "Kept until :return: is reached"],
+    # controls: the same words without the marker syntax
+    "control": ["Kept as is, e.g. Raises nothing", "Same as Args of the caller", "Like Returns of the caller", "The param of the caller, kept"],
+}
+KEYWORDS = [k for k in KEYWORD_DOCS if k != "control"]
+
+
+def keywords_in(text):
+    """which section keywords a text mentions"""
+    if not isinstance(text, str):
+        return []
+    out = [k for k in ("Args:", "Returns:", "Raises:", "Kwargs:", ":param", ":return:") if k in text]
+    import re
+
+    if re.search(r"(?:Parameters|Returns)\s*\n\s*-{3,}", text):
+        out.append("Returns+dashes")
+    elif "Parameters" in text:
+        out.append("Parameters")
+    return out
+
+
+def gen_keyword_irs(r, n):
+    """interfaces where exactly one description — the interface's own, a parameter's, or the return entry's — mentions one keyword
+    (round robin over keywords and over the three places); everything else plain, defaults on a suffix"""
+    kws = sorted(KEYWORD_DOCS)
+    out = []
+    for k in range(n):
+        kw = kws[k % len(kws)]
+        place = ("interface", "param", "return")[(k // len(kws)) % 3]
+        ir = gen_ir(r, nparams=r.randint(1, 3), with_return=True if place == "return" else None, ret_default=r.random() < 0.4,
+                    kinds=("scalar", "scalar", "optional", "union", "list"), none_ok=False, ftype=r.choice(["static", "static", "self"]))
+        text = r.choice(KEYWORD_DOCS[kw])
+        if place == "interface":
+            ir["doc"] = r.choice(["%s", "Summary line.\n\n%s", "%s\n\nLonger description here."]) % text
+        elif place == "param":
+            ir["params"][r.choice(list(ir["params"]))]["doc"] = text
+        else:
+            ir["returns"]["return_type"]["doc"] = text
+        out.append(ir)
+    return out
